@@ -74,7 +74,7 @@ SencEntryBytes(ivSize, subs) == ivSize + (IF subs = <<>> THEN 0 ELSE 2 + 6 * Len
 
 (* ----------------------------------------------------------- generator *)
 Kinds == IF Codec = "audio" THEN {"a"} ELSE {"v", "n"}
-NalSet == [kind : Kinds, len : {l \in Lens : l >= HdrLen + 1}]
+NalSet == [kind : Kinds, len : {l \in Lens : l >= HdrLen}]      \* a header-only unit (end of sequence / stream) is a legitimate NAL unit
 VARIABLES nals
 Init == nals = <<>>
 Add(n) == Len(nals) < (IF Codec = "audio" THEN 1 ELSE MaxNals) /\ nals' = Append(nals, n)
